@@ -132,7 +132,7 @@ theorem fillDly_complete_nopos (r : Rule) (p : Inst) (n : Nat) (l : List Inst) (
     · obtain ⟨f1, f2, f3, -⟩ := handover_facts hr hh
       rw [fillDly_ho r p n nti hr hp hcap hh] at h
       have hnti := (capNti_spec hr hcap).1
-      have := fillWly_complete r p nti l hr hp hs (by omega) hy hpos h x (weekly_of_daily f1 f2 hx) hge hle hxy
+      have := fillWly_complete_nopos r p nti l hr hp hs (by omega) hy hpos h x (weekly_of_daily f1 f2 hx) hge hle hxy
       have hc2 : capOf r nti = nti := by unfold capOf; rw [capNti_idem hcap]; rfl
       rw [hc2] at this
       exact this
